@@ -2,7 +2,7 @@
    Data of a case (document, the implementation's printed text, what the real parser made of it, what the
    implementation reloaded) and the executable statement of the property.  Hand-written, independent of
    any translated code. *)
-From Coq Require Import List Bool ZArith Lia.
+From Coq Require Import List Bool ZArith Lia String Ascii.
 Import ListNotations.
 Open Scope Z_scope.
 
@@ -165,6 +165,9 @@ Definition json5_domainb (v : jvalue) : bool := jwfb true v && keys_uniqueb v.
 Definition json_domain (v : jvalue) : Prop := json_domainb v = true.
 Definition json5_domain (v : jvalue) : Prop := json5_domainb v = true.
 
+(* ASCII text as code points (the harness writes ASCII-only texts as string literals) *)
+Definition zs (s : string) : list Z := map (fun a => Z.of_N (N_of_ascii a)) (list_ascii_of_string s).
+
 (* ------------------------------------------------------------------ cases *)
 
 Inductive format := FJson | FJson5 | FCsv | FYaml | FPlist | FXml.
@@ -189,6 +192,7 @@ Record json_case := {
 (* CSV: rows of cells, every cell a string *)
 Definition table := list (list (list Z)).
 Record csv_case := {
+  cc_src : list Z;                   (* the source file *)
   cc_rows : table;                   (* the loaded document *)
   cc_text : list Z;                  (* printed text *)
   cc_reader : option table;          (* csv.reader on the printed file, opened as csv.build_tree opens it *)
@@ -200,10 +204,10 @@ Record csv_case := {
    known-finding classes) *)
 Record other_case := {
   oc_fmt : format;
-  oc_doc : option jvalue;
-  oc_loaded : bool;                  (* the printed text was accepted by the same loader *)
-  oc_eq : bool;                      (* loaded tree == reloaded tree (implementation's __eq__) *)
-  oc_obj_eq : bool }.                (* to_obj() of both trees agree (repr for XML, text modulo surrounding whitespace) *)
+  oc_doc : option jvalue;            (* to_obj() of the loaded tree; XML: elements as mappings, text stripped *)
+  oc_loaded : bool;                  (* printing succeeded and the printed text was accepted by the same loader *)
+  oc_reload : option jvalue;         (* the same view of the reloaded tree *)
+  oc_eq : bool }.                    (* loaded tree == reloaded tree (implementation's __eq__) *)
 
 Inductive case := CJson (c : json_case) | CCsv (c : csv_case) | COther (c : other_case).
 
@@ -223,13 +227,16 @@ Fixpoint table_eqb (a b : table) : bool :=
 Definition table_blank (t : table) : bool := forallb (fun r => match r with [] => true | _ => false end) t.
 Definition table_equiv (a b : table) : bool := table_eqb a b || (table_blank a && table_blank b).
 
+Definition docs_agree (o : other_case) : bool :=
+  match oc_doc o, oc_reload o with Some a, Some b => jv_equiv a b | _, _ => false end.
+
 (* The property, evaluated on the IMPLEMENTATION's behaviour alone: the printed text was accepted by the
    same loader and the reloaded document equals the original one. *)
 Definition holds_C12 (c : case) : bool :=
   match c with
   | CJson j => jc_eq j && match jc_reload j with Some r => jv_equiv r (jc_tobj j) && jv_equiv r (jc_doc j) | None => false end
   | CCsv t => cc_eq t && match cc_reload t with Some r => table_equiv r (cc_rows t) | None => false end
-  | COther o => oc_loaded o && oc_eq o && oc_obj_eq o
+  | COther o => oc_loaded o && oc_eq o && docs_agree o
   end.
 
 (* ------------------------------------------------------------------ classes of the open findings *)
@@ -261,7 +268,7 @@ Definition kf_yaml_empty (c : case) : bool :=
 (* D8: PLISTNode has no __eq__ : every plist document; only the == observation is excused *)
 Definition kf_plist_eq (c : case) : bool :=
   match c with
-  | COther o => format_eqb (oc_fmt o) FPlist && oc_loaded o && oc_obj_eq o && negb (oc_eq o)
+  | COther o => format_eqb (oc_fmt o) FPlist && oc_loaded o && docs_agree o && negb (oc_eq o)
   | _ => false
   end.
 
